@@ -14,7 +14,7 @@ RULE = ("Case = generated recording (NP1 3B2 / NP2.1 / NP2.4 header, 64..96 AP c
         "low-amplitude coloured content with common stripes, 0..4 saturated stretches placed anywhere incl. batch seams, a "
         "random full-range sync word per sample) x batch size 2304..8192 (multiples of 256) x a list of worker counts from "
         "1..8 x {k-filter with explicit padding <= channels | CAR} x {reject_channels, whitening scalar/matrix, padding "
-        "ns2add, nc_out with/without sync, append}. Workers run under joblib's threading backend (same per-worker offsets "
+        "ns2add, nc_out with/without sync, append, a final non-append run over the files of an earlier longer run}. Workers run under joblib's threading backend (same per-worker offsets "
         "and seeks); the thorough tier adds real loky process pools for a subset. Oracle: (a) size == (ns+ns2add)*nc_out*2; "
         "(b) sync column == source sync bit for bit; (c) bytes identical for every worker count vs 1 worker; (d) reference "
         "pipeline in the harness - per batch [k(N-2048), k(N-2048)+N): saturation -> taper -> voltage.destripe (in-memory) -> "
@@ -61,7 +61,10 @@ def _case(draw):
             "reject": draw(st.booleans()) and ns >= 12000,
             "wrot": draw(st.sampled_from([None, None, "scalar", "matrix"])),
             "ns2add": draw(st.sampled_from([0, 0, 7, 500])), "drop_sync": draw(st.integers(0, 4)) == 0,
-            "append": draw(st.integers(0, 3)) == 0, "loky": False}
+            "append": draw(st.integers(0, 3)) == 0, "loky": False,
+            # a final non-append run onto the output path of an earlier, LONGER run (its out.bin and the rms / time
+            # placeholder files are still there and hold more data than this run produces)
+            "rerun_over_longer": draw(st.booleans())}
     return case
 
 
@@ -277,6 +280,30 @@ def run_case(case, ctx):
             ctx.check(both == one + one, "C06.append", lambda: f"append: file is not run1 || run2 (size {len(both)} vs {2 * len(one)})")
             ra = np.load(d / "w1" / "_iblqc_ephysTimeRmsAP.rms.npy")
             ctx.check(ra.shape == (2 * nbatches, n), "C06.append_rms", lambda: f"append: rms rows {ra.shape}, expected {2 * nbatches}")
+
+
+        # ---- non-append run over the files an earlier, longer run left behind
+        if case.get("rerun_over_longer"):
+            ctx.label("rerun_over_longer_output")
+            w = case["workers"][-1]
+            junk = np.random.default_rng(case["content_seed"] + 2)
+            with open(d / "w1" / "out.bin", "ab") as fid:
+                junk.integers(-3000, 3000, size=(int(junk.integers(1, 400)), nc_out), dtype=np.int16).tofile(fid)
+            for name, ncol in (("ap_rms.bin", n), ("ap_time.bin", 1)):
+                f = d / "w1" / name
+                if f.exists():
+                    with open(f, "ab") as fid:
+                        junk.random((3, ncol), dtype=np.float32).tofile(fid)
+            orr = run(w, d / "w1", append=False)
+            if orr is None:
+                return
+            ctx.check(Path(orr).read_bytes() == raw1.tobytes(), "C06.rerun_over_existing",
+                      lambda: f"non-append run over an existing longer output: file has {Path(orr).stat().st_size} bytes, a fresh run "
+                              f"{raw1.nbytes}; first differing frame {_first_diff(Path(orr).read_bytes(), raw1.tobytes(), nc_out)}")
+            rr = np.load(d / "w1" / "_iblqc_ephysTimeRmsAP.rms.npy")
+            tr = np.load(d / "w1" / "_iblqc_ephysTimeRmsAP.timestamps.npy")
+            ctx.check(rr.shape == (nbatches, n) and tr.shape == (nbatches,), "C06.rerun_rms_rows",
+                      lambda: f"non-append run over existing quality files: rms {rr.shape} timestamps {tr.shape}, expected {nbatches} batches")
 
 
 def _mute_zone(flags, half=4):
